@@ -116,7 +116,7 @@ func runC14(t *mon.T, raw json.RawMessage) {
 			strings = append(strings, s)
 		}
 	}
-	sources := []string{"bytes.Reader", "plain io.Reader", "os.File", "Reader.DataReader", "bufio.Reader", "stutter reader"}
+	sources := []string{"bytes.Reader", "plain io.Reader", "os.File", "Reader.DataReader", "bufio.Reader", "stutter reader", "seeker, data+EOF"}
 	var opts []carv2.Option
 	if d.TrustedCAR {
 		opts = append(opts, carv2.WithTrustedCAR(true))
@@ -137,6 +137,9 @@ func runC14(t *mon.T, raw json.RawMessage) {
 			case "bufio.Reader":
 				p := &posPlain{r: bytes.NewReader(file)}
 				src, maxRead = bufio.NewReaderSize(p, 16), func() int64 { return p.maxRead - 16 } // the buffer may read ahead by its size
+			case "seeker, data+EOF":
+				p := &posSeeker{rs: lab.EOFSeeker{R: bytes.NewReader(file)}}
+				src, maxRead = p, func() int64 { return p.maxRead }
 			case "stutter reader":
 				p := &posPlain{r: &lab.StutterReader{B: file}}
 				src, maxRead = p, func() int64 { return p.maxRead }
